@@ -95,6 +95,16 @@ fn run_step(ctx: &mut Context, step: &Value) -> String {
     let r: JsResult<JsValue> = match kind {
         "eval" => eval_step(ctx, step),
         "jobs" => ctx.run_jobs().map(|()| JsValue::undefined()),
+        "clearkept" => {
+            ctx.clear_kept_objects();
+            Ok(JsValue::undefined())
+        }
+        // run_jobs followed by the host's ClearKeptObjects (SimpleJobExecutor only clears while it has jobs)
+        "jobsclear" => {
+            let r = ctx.run_jobs().map(|()| JsValue::undefined());
+            ctx.clear_kept_objects();
+            r
+        }
         "call" | "construct" => {
             let name = step.get("fn").and_then(Value::as_str).unwrap_or("f");
             let args: Vec<JsValue> = step
